@@ -310,6 +310,95 @@ def slice_independence(rep, pid, tier):
     rep.count("slice_independence_cases", n_ok)
 
 
+def wide_channels(rep, pid, tier):
+    """Channel counts beyond the usual block sizes (a code path that processes channels in slabs of 32 / 64 / 128 is exercised
+    only there): with C = 67 or 131 channels, channel c of the forward result, of the inverse result and of both back-propagated
+    gradients must be what the same map gives for channel c alone - for channels at and around the block boundaries."""
+    dwtlib.f64()
+    rng = np.random.default_rng(23700 + seed())
+    n = 0
+    widths = (67, 131) if tier == "quick" else (67, 131, 259)
+
+    def chan_axes(shapes1, shapes5):
+        ax = []
+        for p_, q_ in zip(shapes1, shapes5):
+            d = [k for k in range(len(p_)) if p_[k] != q_[k]]
+            ax.append(d[0] if len(d) == 1 and p_[d[0]] == 1 and q_[d[0]] == 5 else None)
+        return ax
+
+    def cmp(full, single, axes, c, what, z, C):
+        for k, (a, b, ax) in enumerate(zip(full, single, axes)):
+            if ax is None:
+                continue
+            got, want = a.narrow(ax, c, 1), b
+            if tuple(got.shape) != tuple(want.shape):
+                return "%s: tensor %d has shape %s for channel %d of C=%d, %s alone" % (what, k, tuple(got.shape), c, C, tuple(want.shape))
+            dev = float((got - want).abs().max()) / (float(want.abs().max()) + 1.0)
+            if dev > 1e-12:
+                return "%s: channel %d of %d differs from the same map applied to that channel alone (relative %.3g, tensor %d)" % (what, c, C, dev, k)
+        return None
+
+    for z in transform_zoo(tier):
+        f = z["make"]()
+        try:
+            s1 = [tuple(o.shape) for o in f(torch.zeros(z["shape"](1, 1)))]
+            s5 = [tuple(o.shape) for o in f(torch.zeros(z["shape"](1, 5)))]
+        except Exception:   # noqa   (slice_independence reports it)
+            continue
+        oax = chan_axes(s1, s5)
+        for C in widths:
+            sel = sorted({0, 1, 31, 32, 63, 64, 65, 127, 128, 129, 255, 256, 257, C - 2, C - 1} & set(range(C)))
+            x = torch.tensor(rng.standard_normal(z["shape"](1, C)))
+            bad = None
+            try:
+                outs = f(x)
+                cots = [torch.tensor(rng.standard_normal(tuple(o.shape))) for o in outs]
+                xg = x.clone().requires_grad_(True)
+                gx, = torch.autograd.grad(f(xg), xg, cots, allow_unused=True)
+                pyr, inv = _pyramid_and_inverse(z, x)
+                if inv is not None:
+                    pt = [pyr[0]] + list(pyr[1])
+                    p1, inv1 = _pyramid_and_inverse(z, torch.zeros(z["shape"](1, 1)))
+                    p5, _ = _pyramid_and_inverse(z, torch.zeros(z["shape"](1, 5)))
+                    pax = chan_axes([tuple(t.shape) for t in [p1[0]] + list(p1[1])], [tuple(t.shape) for t in [p5[0]] + list(p5[1])])
+                    pr = [torch.tensor(rng.standard_normal(tuple(t.shape))) for t in pt]
+                    leaves = [t.clone().requires_grad_(True) for t in pr]
+                    y = inv((leaves[0], leaves[1:]))
+                    coty = torch.tensor(rng.standard_normal(tuple(y.shape)))
+                    gp = torch.autograd.grad(y, leaves, coty, allow_unused=True)
+                for c in sel:
+                    xc = x[:, c:c + 1].clone()
+                    bad = cmp(outs, f(xc), oax, c, "forward transform", z, C)
+                    if bad:
+                        break
+                    cc = [(t.narrow(ax, c, 1).clone() if ax is not None else t) for t, ax in zip(cots, oax)]
+                    if all(ax is not None for ax in oax):
+                        xgc = xc.clone().requires_grad_(True)
+                        gc, = torch.autograd.grad(f(xgc), xgc, cc, allow_unused=True)
+                        bad = cmp([gx], [gc], [1], c, "backward of the forward transform", z, C)
+                        if bad:
+                            break
+                    if inv is not None and all(ax is not None for ax in pax):
+                        lc = [t.narrow(ax, c, 1).clone().requires_grad_(True) for t, ax in zip(pr, pax)]
+                        yc = inv((lc[0], lc[1:]))
+                        bad = cmp([y.detach()], [yc.detach()], [1], c, "inverse transform", z, C)
+                        if bad:
+                            break
+                        gpc = torch.autograd.grad(yc, lc, coty[:, c:c + 1], allow_unused=True)
+                        if all(g is not None for g in gp) and all(g is not None for g in gpc):
+                            bad = cmp(list(gp), list(gpc), pax, c, "backward of the inverse transform", z, C)
+                            if bad:
+                                break
+            except Exception as e:   # noqa
+                bad = "raised %r with %d channels" % (e, C)
+            rep.validated()
+            rep.nontriv(("wide", z["name"], C))
+            n += 1
+            if bad:
+                rep.violation("%s with C = %d channels: %s" % (z["name"], C, bad), {"api": z["name"], "check": "wide_channels", "C": C})
+    rep.count("wide_channel_cases", n)
+
+
 def superposition(rep, pid, tier):
     dwtlib.f64()
     rng = np.random.default_rng(23000 + seed())
